@@ -123,7 +123,7 @@ func execRows(api, dests string, fv int, wire []byte) string {
 			for i := 0; i < w; i++ {
 				ds = append(ds, &rec{log: &log, idx: i, fv: byte(fv)})
 			}
-			return ds
+			return ds[:len(ds):len(ds)]
 		}
 		for i, c := range dests {
 			if c == '1' {
@@ -132,7 +132,10 @@ func execRows(api, dests string, fv int, wire []byte) string {
 				ds = append(ds, nil)
 			}
 		}
-		return ds
+		// capacity = length: scanColumn's `dest[:count]` on a tuple column that needs more destinations than are left
+		// must not silently reach into spare capacity left by append (the outcome would depend on how the caller
+		// built the slice; the model says: slice bounds out of range)
+		return ds[:len(ds):len(ds)]
 	}
 	var rows []string
 	switch api {
